@@ -47,11 +47,12 @@ def main():
 
     results = []
     with Scratch() as sc:
-        kh = [h for h in getattr(mod, "KANI", []) if a.tier == "thorough" or h.tier == "quick"]
+        deep = bool(os.environ.get("VERIF_DEEP"))   # tier "deep": development-only obligations that do not finish within the tier budgets
+        kh = [h for h in getattr(mod, "KANI", []) if (a.tier == "thorough" and (h.tier != "deep" or deep)) or h.tier == "quick"]
         if a.only:
             kh = [h for h in kh if a.only in h.name]
         rnd.shuffle(kh)
-        mq = [q for q in getattr(mod, "MIR", []) if a.tier == "thorough" or q.tier == "quick"]
+        mq = [q for q in getattr(mod, "MIR", []) if (a.tier == "thorough" and (q.tier != "deep" or deep)) or q.tier == "quick"]
         if a.only:
             mq = [q for q in mq if a.only in q.name]
         if mq:
